@@ -179,9 +179,16 @@ func workerMain(args []string) {
 	start := time.Now()
 	res := &WorkerResult{Prop: *prop, Shard: *shard, Probes: map[string]int{}, Faults: map[string]int{}, Other: map[string]int{}, CellsRun: map[string]int{}}
 	all := Cells()
-	var elig []*Cell
+	var elig, empty []*Cell
 	for _, c := range all {
-		elig = append(elig, c)
+		if len(c.methods) == 0 {
+			empty = append(empty, c)
+		} else {
+			elig = append(elig, c)
+		}
+	}
+	if len(elig) == 0 {
+		elig, empty = empty, nil
 	}
 	if len(elig) == 0 {
 		fmt.Fprintln(os.Stderr, "no cell with methods")
@@ -197,6 +204,9 @@ func workerMain(args []string) {
 		runSeed := tape.Mix(base, uint64(r))
 		tp := tape.New(runSeed)
 		c := elig[tp.Int(len(elig))]
+		if len(empty) > 0 && tp.Chance(20, 1000) {
+			c = empty[tp.Int(len(empty))] // method-less interfaces: little to run, but their method set is checked
+		}
 		plan := GenPlan(tp, c, pf)
 		planLen := len(tp.Out)
 		armWatchdog(fmt.Sprintf("run %d (%s)", r, plan))
